@@ -314,6 +314,19 @@ theorem C12_pool_await_is_source :
     Bridge.C12Startup.onRunResAwait_eq, Bridge.C12Startup.checksAll_eq.1, Bridge.C12Startup.checksAll_eq.2,
     Bridge.C12Startup.onStartResult_eq, Bridge.C12Startup.onInstanceResult_model⟩
 
+/-- Several pools in one engine: the REGENERATED await loop of `Engine.Run` returns — which cancels the context of every
+pool — without error only after ALL `nPools` pools have returned without error (the first `nPools` things it received
+are error-free pool results); otherwise only because a pool failed or because the engine's context (the caller's) is
+done.  So no pool's run is cancelled by the engine merely because another pool ran out of ammo, finished its profiles or
+finished altogether (each pool has its own start loop, ids, contexts: the theorems above are per pool). -/
+theorem C12_engine_returns_only_when_all_pools_done (nPools : Int) (h0 : 0 ≤ nPools) (evs : List EngEv) (k : Int)
+    (r : EngRet) (h : Gen.Startup.engineRun nPools 0 evs = { awaited := k, ret := some r }) :
+    (r = .ok → k = nPools ∧ ∃ pre, pre.length = nPools.toNat ∧ pre <+: evs ∧ ∀ e ∈ pre, e = EngEv.result true) ∧
+    (r = .failed → EngEv.result false ∈ evs) ∧ (r = .cancelled → EngEv.ctxDone ∈ evs) := by
+  rw [Bridge.C12Startup.engineRun_eq] at h
+  have := engSeq_spec nPools evs 0 k r h0 h
+  simpa using this
+
 /-! ### the profiles -/
 
 /-- `instance_step`: the REGENERATED `NewInstanceStep(from, to, step, d)`, started at 0, emits `from` tokens at 0 and then
@@ -466,6 +479,12 @@ example : (poolRun {} (PSt.init [0, 0]) [ .loop (.wait { tok := some 0, now := 1
     .loop (.wait { tok := some 0, now := 2, arm := 2, ret := 2 } false 0) ]).pending = [(1, .createErr)] ∧
     (poolRun {} (PSt.init [0, 0]) [ .loop (.wait { tok := some 0, now := 1, arm := 1, ret := 1 } true 0),
     .loop (.wait { tok := some 0, now := 2, arm := 2, ret := 2 } false 0), .recvRun 0 ]).base.runCtxDone = true := by decide
+/-- hypotheses of `C12_engine_returns_only_when_all_pools_done`: two pools; the first finishes, the engine goes on waiting;
+both finished: it returns; a failing pool: it returns at once -/
+example : Gen.Startup.engineRun 2 0 [.result true] = { awaited := 1, ret := none } ∧
+    Gen.Startup.engineRun 2 0 [.result true, .result true] = { awaited := 2, ret := some .ok } ∧
+    Gen.Startup.engineRun 2 0 [.result true, .result false] = { awaited := 1, ret := some .failed } ∧
+    Gen.Startup.engineRun 2 0 [.ctxDone] = { awaited := 0, ret := some .cancelled } := by decide
 /-- hypotheses of `C12_pool_await_is_source`: the regenerated condition on concrete counters -/
 example : Gen.Startup.allFinished { startFinished := true, started := 3, awaited := 3 } = true ∧
     Gen.Startup.allFinished { startFinished := true, started := 3, awaited := 2 } = false ∧
